@@ -665,6 +665,14 @@ func runC09(c *core.Ctx) {
 								}
 							}
 						}
+						// a nil returned where a result of Schedule is known to be nil is that result
+						if core.IsNilConst(v) {
+							for _, m := range rc.Cmps() {
+								if call, isC := core.Resolve(m.X).(*ssa.Call); isC && core.Callee(&call.Call) == sched && m.Op == token.EQL && core.IsNilConst(m.Y) {
+									okS = true
+								}
+							}
+						}
 						if !okS {
 							bad = "returns a value that is not a result of Schedule at " + p.InstrPos(x)
 						}
